@@ -29,7 +29,7 @@ ASSUMPTIONS = ['bit damage inside an index file is outside the guarantee (statem
                'cannot exist under the prefix crash model',
                'iterator() of a read-only storage over a torn tail may raise CorruptedDataError (documented '
                'behaviour of FileIterator); all other queries must agree']
-BUDGET = {'quick': {'examples': 800, 'workers': 8},
+BUDGET = {'quick': {'examples': 1000, 'workers': 8},
           'thorough': {'examples': 6000, 'workers': 16}}
 CAPS = programs.CAPS['fs']
 
@@ -56,7 +56,7 @@ def strategy(tier):
             prog.append(['reopen', draw(st.booleans())])
         return prog
     return st.fixed_dictionaries({
-        'prog': st.integers(0, 99).flatmap(lambda w: phased() if w < 42 else programs.program_strategy('fs', n, allow)),
+        'prog': st.integers(0, 99).flatmap(lambda w: phased() if w < 50 else programs.program_strategy('fs', n, allow)),
         'cuts': st.lists(st.integers(1, 400), min_size=1, max_size=3),
         'idx_cuts': st.lists(st.integers(0, 100000), min_size=2, max_size=6),
         'junk': st.integers(0, 255),
